@@ -97,6 +97,29 @@ def end_to_end(tier, rng, fails):
             bad("BatchReactor.fit", "no product generated (vacuous comparison)", "vacuity")
     except Exception as ex:
         bad("BatchReactor.fit", "dedupe off raised %r" % (ex,), "batch-vs-single-nodedupe")
+    # (1c) two different rules that give the same reaction on a substrate (a generic rule and a context-extended variant): the
+    #      cross-rule de-duplication must not depend on rule-level / entry-level workers, the cache or the batch
+    try:
+        from synkit.IO import rsmi_to_its
+        r_gen = rsmi_to_its("[C:2](=[O:3])[O:4][H:7].[C:5][O:6][H:8]>>[C:2](=[O:3])[O:6][C:5].[H:7][O:4][H:8]", core=True)
+        r_spec = rsmi_to_its("[C:1][C:2](=[O:3])[O:4][H:7].[C:5][O:6][H:8]>>[C:1][C:2](=[O:3])[O:6][C:5].[H:7][O:4][H:8]", core=False)
+        ov_subs = ["CC(=O)O.CO", "OC=O.CCO", "CCC(=O)O.CCO", "CCO"]
+
+        def fit_ov(data, **kw):
+            return [list(r[key]) for r in BatchReactor(list(data), react_engine="syn", enable_logging=False, **kw).fit([r_gen, r_spec])]
+        ov_alone = {s: fit_ov([s], cache_enabled=False)[0] for s in ov_subs}
+        if not any(ov_alone.values()):
+            bad("BatchReactor.fit", "overlapping rules give no product (vacuous comparison)", "vacuity")
+        for kw, name in (({}, "defaults"), ({"parallel_rules": True, "rule_n_jobs": 2}, "parallel rules"), ({"entry_n_jobs": 2}, "2 entry workers"),
+                         ({"parallel_rules": True, "rule_n_jobs": 2, "cache_enabled": False}, "parallel rules, cache off")):
+            got = fit_ov(ov_subs, **kw)
+            cases += len(ov_subs)
+            wrong = [(s, g) for s, g in zip(ov_subs, got) if g != ov_alone[s]]
+            if wrong:
+                bad("BatchReactor.fit", "overlapping rules, %s: entry %r got %d results, alone %d" % (name, wrong[0][0], len(wrong[0][1]), len(ov_alone[wrong[0][0]])),
+                    "batch-vs-single-overlap")
+    except Exception as ex:
+        bad("BatchReactor.fit", "overlapping rules raised %r" % (ex,), "batch-vs-single-overlap")
     # (2) batched clustering == one-shot clustering
     from synkit.Graph.Matcher.batch_cluster import BatchCluster
 
@@ -113,14 +136,16 @@ def end_to_end(tier, rng, fails):
               mol([("O", 0), ("C", 0), ("C", 0)], [(1, 2, 1), (2, 3, 1)]), mol([("C", 0), ("O", 0)], [(1, 2, 2)])]
 
     def data():
-        return [{"id": i, "G": g, "n": "%dv%de" % (g.number_of_nodes(), g.number_of_edges())} for i, g in enumerate(graphs)]
+        # "n" is an isomorphism invariant; "tag" is a caller-level pre-partition key that separates some isomorphic graphs
+        return [{"id": i, "G": g, "n": "%dv%de" % (g.number_of_nodes(), g.number_of_edges()), "tag": "t%d" % (i % 2),
+                 "WLHash": nx.weisfeiler_lehman_graph_hash(g, node_attr="element", edge_attr="order")} for i, g in enumerate(graphs)]
 
     def part(ds):
         groups = {}
         for d in ds:
             groups.setdefault(d["class"], set()).add(d["id"])
         return sorted(sorted(v) for v in groups.values())
-    for attr in ("n", None):
+    for attr in ("n", None, "tag", "WLHash"):
         try:
             ref, _ = BatchCluster().fit(data(), None, "G", attr, batch_size=None)
             for bs in (1, 2, 3, 4, 5):
@@ -206,6 +231,17 @@ def end_to_end(tier, rng, fails):
                           (sn2, ["CBr", "CCBr", "O"]), (sn2, ["CBr", "CCBr", "CCCBr", "O"]), (sn2, ["O", "CBr", "CCBr", "CC(C)Br", "BrCCBr"]),
                           (sn2 + crn_rules[:1], ["CBr", "O", "CC=O", "NC", "CCBr"])):
             a = crn_dump(build_syncrn_from_smarts(rl, seeds, repeats=2, parallel=False))
+            if rl is crn_rules and len(seeds) == 4:
+                # a configured matching strategy must reach the worker processes too (a two-component rule whose whole pattern also fits
+                # inside one molecule -- a hydroxy acid -- tells the strategies apart)
+                hy = ["[C:2](=[O:3])[O:4][H:7].[C:5][O:6][H:8]>>[C:2](=[O:3])[O:6][C:5].[H:7][O:4][H:8]",
+                      "[C:2](=[O:3])[O:6][C:5].[H:7][O:4][H:8]>>[C:2](=[O:3])[O:4][H:7].[C:5][O:6][H:8]"]
+                for strat in ("all", "comp", "bt"):
+                    sa = crn_dump(build_syncrn_from_smarts(hy, ["OCCC(=O)O", "CO", "CCO", "O"], repeats=2, parallel=False, strategy=strat))
+                    sb = crn_dump(build_syncrn_from_smarts(hy, ["OCCC(=O)O", "CO", "CCO", "O"], repeats=2, parallel=True, max_workers=2, strategy=strat))
+                    cases += 1
+                    if sa != sb:
+                        bad("SynCRN.build", "strategy %s: parallel expansion differs from serial (%d vs %d events)" % (strat, len(sb[1]), len(sa[1])), "serial-vs-parallel")
             for mw in (2, 3, 4):          # worker counts that do and do not divide the number of rule applications of a step
                 b = crn_dump(build_syncrn_from_smarts(rl, seeds, repeats=2, parallel=True, max_workers=mw))
                 cases += 1
